@@ -16,6 +16,35 @@
 
 let year_ns = 31536000000000000
 
+(* extraction cross-check (bin/coqreplay_c11.py): with ORACLE_DUMP=<file> the numbers the EXTRACTED model
+   computes for every operation of a resolver-level case (answer provenance, query / iterator hits,
+   trigger and spawn flags, run decisions with their marker lists) and the final clock, changelog length
+   and ghost counter are appended to that file; the script recomputes them inside Coq by vm_compute over
+   the same fold of Controller.step. *)
+let dump_chan = match Sys.getenv_opt "ORACLE_DUMP" with
+  | Some p when p <> "" -> Some (open_out_gen [Open_append; Open_creat] 0o644 p)
+  | _ -> None
+let dump_buf : string list ref = ref []
+let dpush (l : string list) = if dump_chan <> None then dump_buf := List.rev_append l !dump_buf
+let di i = string_of_int i
+let db_ b = if b then "1" else "0"
+let enc_marker m = match m with
+  | MStore -> ["0"]
+  | MOR (t, i, r) -> ["1"; dec_of_n t; dec_of_n i; dec_of_n r]
+  | MUOT (u, t) -> ["2"; dec_of_n u; dec_of_n t]
+let enc_out (o : out) : string list =
+  match o with
+  | OUnit -> ["1"]
+  | OAns (a, qh, ih, trig, sp) ->
+    ["2"; di (List.length a)] @ List.map (fun (_, n) -> di (int_of_nat n)) a
+    @ [di (List.length qh)] @ List.map db_ qh @ [di (List.length ih)] @ List.map db_ ih @ [db_ trig; db_ sp]
+  | OStart b -> ["3"; db_ b]
+  | ORead b -> ["4"; db_ b]
+  | OFin d ->
+    (match d with
+     | DNoRun -> ["5"; "0"] | DError -> ["5"; "1"] | DNoNew -> ["5"; "2"] | DNoneInWindow -> ["5"; "3"] | DFull -> ["5"; "4"]
+     | DPartial ms -> ["5"; "5"; di (List.length ms)] @ List.concat_map enc_marker ms)
+
 let nat_len l = int_of_nat (length l)
 
 let dec_key v =
@@ -85,7 +114,15 @@ let f_e2e unquiet checks =
       Printf.sprintf "PROP end-to-end: check %d (and %d more) of the real server differs from the uncached answer although an invalidation run that read the changelog after the last write has completed and no Check fell between a write and its run"
         i (List.length !bad - 1)
 
-let f _id vs =
+let rec f id vs =
+  dump_buf := [];
+  let v = f0 id vs in
+  (match dump_chan with
+   | Some oc when !dump_buf <> [] ->
+     output_string oc (id ^ " " ^ String.concat " " (List.rev !dump_buf) ^ "\n"); flush oc
+   | _ -> ());
+  v
+and f0 _id vs =
   match vs with
   | [L [I "9"; unq]; checks] -> f_e2e (as_bool unq) (as_list checks)
   | [cfgv; opsv] ->
@@ -106,7 +143,7 @@ let f _id vs =
       match as_list opv with
       | I "1" :: tb :: _ :: ws :: [] ->
         let o = Write (List.map dec_tup (as_list ws)) in
-        s := fst (step c (tick_to c !s (as_int tb)) o);
+        s := fst (step c (tick_to c !s (as_int tb)) o); dpush ["1"];
         s0 := fst (step c (tick_to c !s0 (as_int tb)) o)
       | I "2" :: tb :: _ :: forest :: tzero :: spawned :: qhits :: ihits :: cts :: jq :: jisv :: [] ->
         let fr = dec_forest [forest] in
@@ -123,6 +160,7 @@ let f _id vs =
         if not (req_ok c st fr) then unquiet := true;
         let m_tzero = int_of_n (fst (determine c st)) = 0 in
         let (st', out) = step c st (Request (fr, true, n_of_int (as_int jq), jis)) in
+        dpush (enc_out out);
         let (st0', out0) = step c st0 (Request (fr, true, N0, [])) in
         s := st'; s0 := st0';
         let db = st.s_db in
@@ -179,6 +217,7 @@ let f _id vs =
         let o j = RaceRead (k, List.map dec_tup (as_list ws), true, j) in
         let st = tick_to c !s (as_int tb) and st0 = tick_to c !s0 (as_int tb) in
         let (st', out) = step c st (o (n_of_int (as_int jx))) in
+        dpush (enc_out out);
         let (st0', out0) = step c st0 (o N0) in
         s := st'; s0 := st0';
         let db = st.s_db in
@@ -205,12 +244,14 @@ let f _id vs =
          | _ -> diff i "model output kind")
       | I "3" :: tb :: _ :: spawned :: [] ->
         let (st', out) = step c (tick_to c !s (as_int tb)) InvStart in
+        dpush (enc_out out);
         s := st'; s0 := fst (step c (tick_to c !s0 (as_int tb)) InvStart);
         (match out with
          | OStart b -> if b <> as_bool spawned then diff i "InvalidateIfNeeded spawned model=%s impl=%s" (b2 b) (b2 (as_bool spawned))
          | _ -> diff i "model output kind")
       | I "4" :: tb :: _ :: did :: [] ->
         let (st', out) = step c (tick_to c !s (as_int tb)) InvRead in
+        dpush (enc_out out);
         s := st'; s0 := fst (step c (tick_to c !s0 (as_int tb)) InvRead);
         (match out with
          | ORead b -> if b <> as_bool did then diff i "run read model=%s impl=%s" (b2 b) (b2 (as_bool did))
@@ -219,6 +260,7 @@ let f _id vs =
         let st = tick_to c !s (as_int tb) in
         let m_readlen = match st.s_run with Some (RRead r) -> nat_len r.r_seen | _ -> -1 in
         let (st', out) = step c st InvFinish in
+        dpush (enc_out out);
         s := st'; s0 := fst (step c (tick_to c !s0 (as_int tb)) InvFinish);
         let did = as_bool did and clset = as_bool clset and storeset = as_bool storeset in
         let marks = List.map dec_marker (as_list marks) in
@@ -260,6 +302,7 @@ let f _id vs =
            end
          | _ -> diff i "model output kind")
       | _ -> diff i "malformed op") (as_list opsv);
+    dpush [dec_of_n !s.s_now; di (nat_len !s.s_db); di (int_of_nat !s.s_done)];
     (match !props, !diffs, !knowns with
      | p :: _, _, _ -> "PROP " ^ p
      | [], d :: _, _ -> "DIFF " ^ String.concat " | " (List.rev !diffs |> List.filteri (fun i _ -> i < 3)) ^ (ignore d; "")
